@@ -3,30 +3,30 @@ CONSTANTS Ctx <- McCtx
  Init0 <- McInit
  Gas <- McGas
  Devs = {}
- Kinds = {"xfer", "box", "vote", "reg", "topup", "unreg"}
- From = {"a1", "a2", "a3", "a4", "I"}
- XTo = {"a1", "a2", "a3", "I", "KR", "KX", "KS", "KD", "KO"}
- XAmt = {0, 100, 150, 1000}
- Payers = {"a4", "a1"}
- Voters = {"a1", "a2", "I"}
- Cands = {"a3", "a4"}
- RegAmt = {0, 50, 300, 350}
+ Kinds = {"xfer", "box"}
+ From = {"a1", "a2"}
+ XTo = {"a2", "KS"}
+ XAmt = {100}
+ Payers = {}
+ Voters = {}
+ Cands = {}
+ RegAmt = {}
  AFrom = {}
  ATo = {}
  AAmt = {}
  IAmt = {}
  ACodes = {}
  AIds = {}
- BGL = {90000, 150000, 300000}
- BoxFrom = {"a1", "a4"}
- BoxTo = {"a1", "a2", "a3"}
+ BGL = {40000, 45000, 90000, 125000, 150000, 175000}
+ BoxFrom = {"a1"}
+ BoxTo = {"a1", "a2"}
  RewFrom = {}
  RewTerms = {}
  RewAmt = {}
  EmptyOK = FALSE
- MaxTx = 4
- MaxBlk = 2
- MaxTot = 7
+ MaxTx = 3
+ MaxBlk = 1
+ MaxTot = 3
 VIEW View
 INVARIANTS NonNegative Conservation DepositsBacked VotesAtBoundary SupplyEqualsEquity NothingForbiddenIncluded
 PROPERTIES EndOfBlockIssuesTheReward GasWithinLimit NotIncludedIsFree OnlyOwnEquityDecreases SupplyChangesOnlyByIssuerOrHolder FrozenDoesNotMove
